@@ -42,6 +42,11 @@ func init() {
 	externals[vtPkg+"I32"] = fresh(types.Int32)
 	externals[vtPkg+"I64"] = fresh(types.Int64)
 	externals[vtPkg+"Int"] = fresh(types.Int)
+	externals[vtPkg+"Or"] = func(fr *frame, args []value) value { return boolSym(mkOr(toSym(args[0]).t, toSym(args[1]).t)) }
+	externals[vtPkg+"And"] = func(fr *frame, args []value) value { return boolSym(mkAnd(toSym(args[0]).t, toSym(args[1]).t)) }
+	externals[vtPkg+"Implies"] = func(fr *frame, args []value) value {
+		return boolSym(mkOr(mkNot(toSym(args[0]).t), toSym(args[1]).t))
+	}
 	externals[vtPkg+"Symbolic"] = func(fr *frame, args []value) value { return true }
 	externals[vtPkg+"Assume"] = func(fr *frame, args []value) value {
 		fr.i.ex.Assume(args[0])
@@ -168,6 +173,21 @@ func init() {
 			return simplify(sym{res, types.Int})
 		}
 	}
+	pop := func(bits int) externalFn {
+		return func(fr *frame, args []value) value {
+			x := toSym(args[0])
+			res := mkConst(0, 64)
+			for i := 0; i < bits; i++ {
+				res = mkBin("bvadd", res, mkZext(mkExtract(x.t, i, i), 63))
+			}
+			return simplify(sym{res, types.Int})
+		}
+	}
+	externals["math/bits.OnesCount"] = pop(64)
+	externals["math/bits.OnesCount64"] = pop(64)
+	externals["math/bits.OnesCount32"] = pop(32)
+	externals["math/bits.OnesCount16"] = pop(16)
+	externals["math/bits.OnesCount8"] = pop(8)
 	externals["math/bits.Len"] = lenN(64)
 	externals["math/bits.Len64"] = lenN(64)
 	externals["math/bits.Len32"] = lenN(32)
